@@ -526,7 +526,7 @@ func init() {
 		Run:       runC11,
 		QuickRuns: 3000, ThoroughS: 1200,
 		Rule: "one run = one history (prefix, victim, suffix) executed once per injection point: a dry run counts the format-checker invocations N of the victim and the panic is injected at every k in 1..N (64 sampled above that), " +
-			"or the victim is a schema with an unresolvable $ref at some depth (documented invalid-schema panic raised mid-validation); the caller recovers; every suffix operation is compared with its fresh-process outcome. " +
+			"or the victim is a schema with an unresolvable $ref at some depth (documented invalid-schema panic raised mid-validation); victims are one-shot, recycling, non-recycling or long-lived validators (the latter go on being used), parameter / header validators or a whole-specification validation (16 / 64 sampled points); sometimes a second validation is aborted later; the caller recovers; every suffix operation is compared with its fresh-process outcome; a call that would block forever counts as a wrong outcome. " +
 			"non-trivial = the injected panic actually fired; distinct = distinct (operation kinds, recycling edges, k)",
 		Real: commonReal,
 		Stub: append(append([]string{}, commonStub...), "strfmt.Registry handed to the library -> wrapper around the real strfmt.Default that panics at the k-th Validates/ContainsName call"),
